@@ -68,7 +68,8 @@ CHECKS = {
         "holds when it returns, is snapshotted; two twins forked from one memory image that differ only in the secret must show byte-identical "
         "blocks (a wiped block depends only on addresses and the wipe counter), and no block may contain an 8-octet window of the secret or "
         "its expanded key. Exits covered: success, failed authentication, every error exit reachable by corrupting one input (bad "
-        "private/public key, bad token, short token, spoiled peer tag) and every allocation-failure exit.",
+        "private/public key, out-of-range private key of the bign/bign96 signers, bad token, short token, spoiled peer tag, right password on a "
+        "container of the other kind) and every allocation-failure exit.",
    note="Heap blocks only; gcc -O3 Release build; rngCreate and the step-level bake/BAUTH functions (caller-owned state) are not in the call table."),
  "C09": dict(level="fault_enumeration",
    technique="allocation-failure enumeration through an LD_PRELOAD interposer in forked children + header-transcribed argument-contract table under ASan",
@@ -91,7 +92,8 @@ CHECKS = {
    text="BMQV, BSTS, BPACE and token BAUTH are run step by step and through RunA/RunB (B in a second thread over an in-memory pipe) for 3 curves x "
         "confirmation flags x hello strings x generator tapes; every octet of every message M1..M4 is altered (curve256 in quick, all curves in "
         "thorough), points are replaced by off-curve / out-of-field / zero / twist encodings, passwords, keys and certificates are mismatched; "
-        "honest runs must agree on the key, tampered runs must fail (confirmation) or disagree (no confirmation).",
+        "honest runs must agree on the key, tampered runs must fail (confirmation) or disagree (no confirmation). The driver runs also cover "
+        "certificates that make M2/M3 longer than the 512-octet read block (honest and altered) and certificates that are 4-octet identifiers.",
    note="Negating the y-coordinate of a transmitted point is outside the quantifier (the standard hashes x only) and only tallied."),
  "C13": dict(level="exploration",
    technique="reference-model oracle (GF(2)[x] sharing/CRT in Python) + recover-after-share metamorphic oracle over exhaustive subsets under ASan",
